@@ -47,7 +47,10 @@ def rust_attr(f):
     if f['acc']:
         args.append(f['acc'])
     if f.get('stride') is not None:
-        args.append('stride = %d' % f['stride'])
+        args.append('stride%s%d' % (f.get('stride_sep', ' = '), f['stride']))
+    if f.get('order'):
+        # the order of the arguments is free: range, access and stride in any order
+        args = [args[i] for i in f['order'] if i < len(args)] + [a for i, a in enumerate(args) if i not in f['order']]
     return '#[%s(%s)]' % (kw, ', '.join(args))
 
 
